@@ -170,15 +170,15 @@ func ExtractTopology(fn *ssa.Function) *FunctionTopology {
 			case *ssa.Phi:
 				t.PhiCount++
 			case *ssa.Call:
-				sig := extractCallSignature(i)
+				sig := extractCallSignature(i, fn)
 				t.CallSignatures[sig]++
 			case *ssa.Go:
 				t.HasGo = true
-				sig := extractGoSignature(i)
+				sig := extractGoSignature(i, fn)
 				t.CallSignatures["go:"+sig]++
 			case *ssa.Defer:
 				t.HasDefer = true
-				sig := extractDeferSignature(i)
+				sig := extractDeferSignature(i, fn)
 				t.CallSignatures["defer:"+sig]++
 			case *ssa.Panic:
 				t.HasPanic = true
@@ -285,7 +285,7 @@ func normalizeTypeName(t types.Type) string {
 	return typePathCleaner.ReplaceAllString(s, "")
 }
 
-func extractCallSignature(call *ssa.Call) string {
+func extractCallSignature(call *ssa.Call, self *ssa.Function) string {
 	if call.Call.IsInvoke() {
 		recvType := call.Call.Value.Type()
 		return fmt.Sprintf("invoke:%s.%s", normalizeTypeName(recvType), call.Call.Method.Name())
@@ -293,7 +293,7 @@ func extractCallSignature(call *ssa.Call) string {
 
 	switch v := call.Call.Value.(type) {
 	case *ssa.Function:
-		return extractFunctionSig(v)
+		return extractFunctionSig(v, self)
 	case *ssa.Builtin:
 		return fmt.Sprintf("builtin:%s", v.Name())
 	case *ssa.MakeClosure:
@@ -312,7 +312,7 @@ func extractCallSignature(call *ssa.Call) string {
 	return "call:unknown"
 }
 
-func extractGoSignature(g *ssa.Go) string {
+func extractGoSignature(g *ssa.Go, self *ssa.Function) string {
 	// FIX: Handle interface method invocations (go w.Do())
 	// In Invoke mode, Value is the receiver.
 	if g.Call.IsInvoke() {
@@ -322,7 +322,7 @@ func extractGoSignature(g *ssa.Go) string {
 
 	switch v := g.Call.Value.(type) {
 	case *ssa.Function:
-		return extractFunctionSig(v)
+		return extractFunctionSig(v, self)
 	case *ssa.MakeClosure:
 		if sig := extractClosureSignature(v); sig != "" {
 			return sig
@@ -335,7 +335,7 @@ func extractGoSignature(g *ssa.Go) string {
 	return "unknown"
 }
 
-func extractDeferSignature(d *ssa.Defer) string {
+func extractDeferSignature(d *ssa.Defer, self *ssa.Function) string {
 	// FIX: Handle interface method invocations (defer w.Close())
 	if d.Call.IsInvoke() {
 		recvType := d.Call.Value.Type()
@@ -344,7 +344,7 @@ func extractDeferSignature(d *ssa.Defer) string {
 
 	switch v := d.Call.Value.(type) {
 	case *ssa.Function:
-		return extractFunctionSig(v)
+		return extractFunctionSig(v, self)
 	case *ssa.MakeClosure:
 		if sig := extractClosureSignature(v); sig != "" {
 			return sig
@@ -398,7 +398,14 @@ func signatureShape(sig *types.Signature) string {
 	return sb.String()
 }
 
-func extractFunctionSig(fn *ssa.Function) string {
+func extractFunctionSig(fn *ssa.Function, self *ssa.Function) string {
+	// A recursive call must not put the function's own name into its shape: a renamed copy of
+	// an indexed function would otherwise get a different topology hash and miss the
+	// signature's required call.
+	if self != nil && fn == self {
+		return "self:recursive"
+	}
+
 	// Fix: Detect anonymous/nested functions to provide stable signatures.
 	// This handles optimizations where simple closures become plain Functions.
 	if fn.Parent() != nil {
